@@ -20,6 +20,8 @@ struct Expected {
     signal: Option<String>,
     /// textual access (`[i]`, `[2]`, `.a`) for the lower-bound rule
     access: String,
+    /// block the signal is declared in, when another signal of the same name lives in a sibling block
+    scope: Option<usize>,
 }
 
 #[derive(Clone, Debug)]
@@ -29,6 +31,8 @@ struct ConstraintStmt {
     mentions: Vec<(String, String)>,
     /// all identifiers occurring anywhere in the statement (upper bound)
     names: BTreeSet<String>,
+    /// see `Expected::scope`
+    scope: Option<usize>,
 }
 
 struct G<'a, 'b> {
@@ -53,7 +57,16 @@ impl<'a, 'b> G<'a, 'b> {
     }
     fn fresh(&mut self, p: &str) -> String {
         self.counter += 1;
-        format!("{p}{}", self.counter)
+        // identifiers may start with underscores (`_` alone is the wildcard of tuple assignments)
+        let lead = match self.t.below(12) {
+            0 => "_",
+            1 => "__",
+            _ => "",
+        };
+        if !lead.is_empty() {
+            self.forms.push("identifier starting with an underscore");
+        }
+        format!("{lead}{p}{}", self.counter)
     }
 
     /// Right-hand side over inputs, parameters and loop variables; collects identifiers used.
@@ -129,7 +142,7 @@ impl<'a, 'b> G<'a, 'b> {
         Self::names_of(&r, &mut names);
         // scalar occurrences with empty access
         let mentions = names.iter().map(|n| (n.clone(), String::new())).collect();
-        self.constraints.push(ConstraintStmt { id, mentions, names });
+        self.constraints.push(ConstraintStmt { id, mentions, names, scope: None });
         Stmt::ConstraintEq { id, l, r }
     }
 
@@ -155,7 +168,7 @@ impl<'a, 'b> G<'a, 'b> {
         let mut mentions: Vec<(String, String)> = names.iter().map(|n| (n.clone(), String::new())).collect();
         mentions.push((name.clone(), String::new()));
         names.insert(name.clone());
-        self.constraints.push(ConstraintStmt { id, mentions, names });
+        self.constraints.push(ConstraintStmt { id, mentions, names, scope: None });
         let lhs = self.var(&name);
         out.push(Stmt::Assign { id, lhs, op: AssignOp::Constrain, rhs, reversed: self.t.chance(60) });
         self.assigned.push(name);
@@ -176,7 +189,7 @@ impl<'a, 'b> G<'a, 'b> {
 
     /// One `<--` form; declarations it needs go to `decls` (top of the template), the statement is returned.
     fn signal_assign(&mut self, decls: &mut Vec<Stmt>, in_loop: Option<(String, u64)>) -> Vec<Stmt> {
-        let form = self.t.below(10);
+        let form = self.t.below(11);
         match form {
             // scalar, both spellings
             0 | 1 => {
@@ -186,7 +199,7 @@ impl<'a, 'b> G<'a, 'b> {
                 let id = self.ids.next();
                 let lhs = self.var(&s);
                 let rhs = self.rhs(2);
-                self.expected.push(Expected { anchor: id, signal: Some(s.clone()), access: String::new() });
+                self.expected.push(Expected { anchor: id, signal: Some(s.clone()), access: String::new(), scope: None });
                 if in_loop.is_none() {
                     self.assigned.push(s);
                 }
@@ -208,7 +221,7 @@ impl<'a, 'b> G<'a, 'b> {
                 };
                 let lhs = Expr::Var { id: self.ids.next(), name: a.clone(), access: vec![Access::Index(ix)] };
                 let rhs = self.rhs(2);
-                self.expected.push(Expected { anchor: id, signal: Some(a), access: text });
+                self.expected.push(Expected { anchor: id, signal: Some(a), access: text, scope: None });
                 self.forms.push("array element");
                 vec![Stmt::Assign { id, lhs, op: AssignOp::Signal, rhs, reversed: self.t.chance(60) }]
             }
@@ -221,7 +234,7 @@ impl<'a, 'b> G<'a, 'b> {
                 for _ in 0..n {
                     let s = self.fresh("d");
                     let rhs = self.rhs(2);
-                    self.expected.push(Expected { anchor: id, signal: Some(s.clone()), access: String::new() });
+                    self.expected.push(Expected { anchor: id, signal: Some(s.clone()), access: String::new(), scope: None });
                     self.assigned.push(s.clone());
                     syms.push(DeclSym { id: self.ids.next(), sub_id: self.ids.next(), name: s, dims: vec![], init: Some(rhs) });
                 }
@@ -251,7 +264,7 @@ impl<'a, 'b> G<'a, 'b> {
                 } else {
                     self.rhs(2)
                 };
-                self.expected.push(Expected { anchor: id, signal: Some(c.clone()), access: ".a".into() });
+                self.expected.push(Expected { anchor: id, signal: Some(c.clone()), access: ".a".into(), scope: None });
                 let id2 = self.ids.next();
                 let lhs2 = Expr::Var { id: self.ids.next(), name: c, access: vec![Access::Field("b".into())] };
                 let rhs2 = self.rhs(1);
@@ -277,8 +290,8 @@ impl<'a, 'b> G<'a, 'b> {
                 self.decl_signal(&s2, SigKind::Output, None, decls);
                 let v1 = self.var(&s1);
                 let v2 = self.var(&s2);
-                self.expected.push(Expected { anchor: v1.id(), signal: Some(s1.clone()), access: String::new() });
-                self.expected.push(Expected { anchor: v2.id(), signal: Some(s2.clone()), access: String::new() });
+                self.expected.push(Expected { anchor: v1.id(), signal: Some(s1.clone()), access: String::new(), scope: None });
+                self.expected.push(Expected { anchor: v2.id(), signal: Some(s2.clone()), access: String::new(), scope: None });
                 let under = Expr::Underscore { id: self.ids.next() };
                 let lhs = Expr::Tuple { id: self.ids.next(), elems: vec![v1, under, v2] };
                 let (e1, e2, e3) = (self.rhs(1), self.rhs(1), self.rhs(1));
@@ -295,8 +308,8 @@ impl<'a, 'b> G<'a, 'b> {
                 let s1 = self.fresh("u");
                 let s2 = self.fresh("u");
                 let id = self.ids.next();
-                self.expected.push(Expected { anchor: id, signal: Some(s1.clone()), access: String::new() });
-                self.expected.push(Expected { anchor: id, signal: Some(s2.clone()), access: String::new() });
+                self.expected.push(Expected { anchor: id, signal: Some(s1.clone()), access: String::new(), scope: None });
+                self.expected.push(Expected { anchor: id, signal: Some(s2.clone()), access: String::new(), scope: None });
                 let (e1, e2) = (self.rhs(1), self.rhs(1));
                 let rhs = Expr::Tuple { id: self.ids.next(), elems: vec![e1, e2] };
                 self.assigned.push(s1.clone());
@@ -334,7 +347,7 @@ impl<'a, 'b> G<'a, 'b> {
                 };
                 let nsig = names.iter().filter(|(op, _)| *op == AssignOp::Signal).count();
                 for _ in 0..nsig {
-                    self.expected.push(Expected { anchor: call_id, signal: None, access: String::new() });
+                    self.expected.push(Expected { anchor: call_id, signal: None, access: String::new(), scope: None });
                 }
                 let params = if tname == "One" { vec![] } else { vec![k] };
                 self.forms.push(if nsig == 2 { "anonymous component, two `<--` inputs" } else { "anonymous component, one `<--` input" });
@@ -350,7 +363,7 @@ impl<'a, 'b> G<'a, 'b> {
                 // `s <== T()(…)` is itself a constraint statement mentioning s
                 let mut names_set = BTreeSet::new();
                 names_set.insert(s.clone());
-                self.constraints.push(ConstraintStmt { id, mentions: vec![(s.clone(), String::new())], names: names_set });
+                self.constraints.push(ConstraintStmt { id, mentions: vec![(s.clone(), String::new())], names: names_set, scope: None });
                 self.assigned.push(s);
                 vec![Stmt::Assign { id, lhs, op: AssignOp::Constrain, rhs: anon, reversed: false }]
             }
@@ -362,8 +375,8 @@ impl<'a, 'b> G<'a, 'b> {
                 let inner_id = self.ids.next();
                 let inner = Expr::Anon { id: inner_id, name: "One".into(), params: vec![], inputs: vec![e1], names: Some(vec![(AssignOp::Signal, "a".to_string())]) };
                 let outer_id = self.ids.next();
-                self.expected.push(Expected { anchor: outer_id, signal: None, access: String::new() });
-                self.expected.push(Expected { anchor: inner_id, signal: None, access: String::new() });
+                self.expected.push(Expected { anchor: outer_id, signal: None, access: String::new(), scope: None });
+                self.expected.push(Expected { anchor: inner_id, signal: None, access: String::new(), scope: None });
                 if self.t.chance(128) {
                     self.forms.push("nested anonymous components, outer template with two outputs");
                     let outer = Expr::Anon {
@@ -384,7 +397,7 @@ impl<'a, 'b> G<'a, 'b> {
                     let mut names_set = BTreeSet::new();
                     names_set.insert(s1.clone());
                     names_set.insert(s2.clone());
-                    self.constraints.push(ConstraintStmt { id, mentions: vec![(s1.clone(), String::new()), (s2.clone(), String::new())], names: names_set });
+                    self.constraints.push(ConstraintStmt { id, mentions: vec![(s1.clone(), String::new()), (s2.clone(), String::new())], names: names_set, scope: None });
                     self.assigned.push(s1);
                     self.assigned.push(s2);
                     vec![Stmt::Assign { id, lhs, op: AssignOp::Constrain, rhs: outer, reversed: false }]
@@ -395,13 +408,54 @@ impl<'a, 'b> G<'a, 'b> {
                     vec![Stmt::ExprStmt { id: self.ids.next(), e: outer }]
                 }
             }
+            // two signals of one name declared in the two branches of an `if`, each assigned with `<--` and
+            // constrained inside its own branch
+            10 if self.loop_vars.is_empty() => {
+                let w = self.fresh("w");
+                let mut branches = Vec::new();
+                for _ in 0..2 {
+                    let scope = self.ids.next();
+                    let mut stmts = Vec::new();
+                    self.decl_signal(&w, SigKind::Intermediate, None, &mut stmts);
+                    let id = self.ids.next();
+                    let lhs = self.var(&w);
+                    let input = self.inputs[self.t.below(self.inputs.len())].clone();
+                    let l = self.var(&input);
+                    let k = 1 + self.t.below(5) as u64;
+                    let r = self.num(k);
+                    let rhs = infix(&mut self.ids, Op::ShiftR, l, r);
+                    self.expected.push(Expected { anchor: id, signal: Some(w.clone()), access: String::new(), scope: Some(scope) });
+                    stmts.push(Stmt::Assign { id, lhs, op: AssignOp::Signal, rhs, reversed: self.t.chance(60) });
+                    for _ in 0..1 + self.t.below(2) {
+                        let cid = self.ids.next();
+                        let wv = self.var(&w);
+                        let o = self.rhs(1);
+                        let e = self.rhs(1);
+                        let sum = infix(&mut self.ids, Op::Add, o, wv);
+                        let mut names = BTreeSet::new();
+                        Self::names_of(&sum, &mut names);
+                        Self::names_of(&e, &mut names);
+                        let mentions = names.iter().map(|n| (n.clone(), String::new())).collect();
+                        self.constraints.push(ConstraintStmt { id: cid, mentions, names, scope: Some(scope) });
+                        stmts.push(Stmt::ConstraintEq { id: cid, l: e, r: sum });
+                    }
+                    branches.push(Stmt::Block { id: scope, stmts });
+                }
+                let nv = self.var("n");
+                let k = self.num(2);
+                let cond = infix(&mut self.ids, Op::Eq, nv, k);
+                let els = branches.pop().map(Box::new);
+                let then = Box::new(branches.pop().unwrap());
+                self.forms.push("same-named signals declared in sibling branches");
+                vec![Stmt::If { id: self.ids.next(), cond, then, els }]
+            }
             _ => {
                 let s = self.fresh("s");
                 self.decl_signal(&s, SigKind::Intermediate, None, decls);
                 let id = self.ids.next();
                 let lhs = self.var(&s);
                 let rhs = self.rhs(1);
-                self.expected.push(Expected { anchor: id, signal: Some(s), access: String::new() });
+                self.expected.push(Expected { anchor: id, signal: Some(s), access: String::new(), scope: None });
                 vec![Stmt::Assign { id, lhs, op: AssignOp::Signal, rhs, reversed: false }]
             }
         }
@@ -629,7 +683,7 @@ fn case(ctx: &Ctx, tape: &[u8], rec: &Rec) -> Verdict {
                 // lower bound: constraint statements mentioning the signal with the identical access
                 for cs in &c.constraints {
                     let Some(csp) = span(cs.id) else { continue };
-                    let must = cs.mentions.iter().any(|(n, a)| n == sig && *a == e.access);
+                    let must = cs.mentions.iter().any(|(n, a)| n == sig && *a == e.access) && (e.scope.is_none() || cs.scope == e.scope);
                     if must && !secondary.contains(&csp) {
                         return Err(Bad::new(format!(
                             "`<--` finding for `{sig}{}`: the constraint statement `{}` mentions the signal but is not among the secondary locations",
@@ -642,7 +696,7 @@ fn case(ctx: &Ctx, tape: &[u8], rec: &Rec) -> Verdict {
                 }
                 // upper bound: only constraint statements that mention the signal's name at all
                 for s2 in &secondary {
-                    let ok = c.constraints.iter().any(|cs| span(cs.id) == Some(*s2) && cs.names.contains(sig));
+                    let ok = c.constraints.iter().any(|cs| span(cs.id) == Some(*s2) && cs.names.contains(sig) && (e.scope.is_none() || cs.scope == e.scope));
                     if !ok {
                         return Err(Bad::new(format!(
                             "`<--` finding for `{sig}`: secondary location `{}` is not a constraint statement mentioning `{sig}`",
